@@ -201,3 +201,17 @@ package types
 // Delta and ApplyDelta are executed on all 256 x 256 pairs of permission sets.
 //@ bounded [C05] delta_roundtrip: o AccessMode in 0..255, n AccessMode in 0..255 :: func() bool { m := o; if err := m.ApplyDelta(o.Delta(n)); err != nil { return false }; return m == n }()
 //@ bounded [C05] mutation_roundtrip: o AccessMode in 0..255, n AccessMode in 0..255 :: func() bool { m := o; d := o.Delta(n); if o == 0 || d == "" { d = n.String() }; if err := m.ApplyMutation(d); err != nil { return false }; return m == n }()
+
+// sort.Sort applied to a RangeSorter: the library sorts by RangeSorter.Less (a total preorder: Low ascending, for
+// equal Low the larger Hi first), keeps the length and only permutes the elements (trusted).
+//@ func sortRangesModel(rs RangeSorter)
+//@   models sort.Sort
+//@   requires [C04] wf: forall j int :: 0 <= j && j < len(rs) ==> wfRange(rs[j])
+//@   modifies rs[*]
+//@   ensures [C04] forall a int, b int :: 0 <= a && a < b && b < len(rs) ==> rs[a].Low < rs[b].Low || (rs[a].Low == rs[b].Low && rs[a].Hi >= rs[b].Hi)
+//@   ensures [C04] forall k int :: 0 <= k && k < len(rs) ==> exists j int :: 0 <= j && j < len(rs) && rs[k].Low == old(rs[j].Low) && rs[k].Hi == old(rs[j].Hi)
+//@   ensures [C04] forall j int :: 0 <= j && j < len(rs) ==> exists k int :: 0 <= k && k < len(rs) && rs[k].Low == old(rs[j].Low) && rs[k].Hi == old(rs[j].Hi)
+// (a consequence of the permutation property, stated so that callers need no quantifier alternation)
+//@   ensures [C04] forall k int :: 0 <= k && k < len(rs) ==> wfRange(rs[k])
+// (for well-formed ranges the raw order by (Low, -Hi) is the order by (Low, -upper): Hi == 0 is the narrowest range)
+//@   ensures [C04] sortedRanges(rs)
